@@ -12,10 +12,10 @@ Definition action_body (a : action) : option bytes :=
   | AStdError k arg => Some (encode_reply (Some (std_params k arg)) false (std_name k))
   end.
 
-Definition attempt_bytes (c : call) (at : attempt) : bytes :=
+Definition attempt_bytes (c : call) (att : attempt) : bytes :=
   if c_oneway c then []
-  else match at_result at with
-       | ResOk => match action_body (at_action at) with Some bd => frame bd | None => [] end
+  else match at_result att with
+       | ResOk => match action_body (at_action att) with Some bd => frame bd | None => [] end
        | _ => []
        end.
 
@@ -102,3 +102,117 @@ Proof.
     + inversion H; subst; exact Hl.
   - exact (send_message_left_none _ _ _ _ _ Hl H).
 Qed.
+
+(* ---------- run_hprog ---------- *)
+
+Lemma run_hprog_ret : forall c e w log, run_hprog c (Ret e) w log = (e, w, rev log).
+Proof. reflexivity. Qed.
+
+Lemma run_hprog_do : forall c a k w log,
+  run_hprog c (Do a k) w log =
+  run_hprog c (k (fst (do_action c a w))) (snd (do_action c a w))
+            (mkAtt a (fst (do_action c a w)) :: log).
+Proof.
+  intros c a k w log. cbn [run_hprog].
+  destruct (do_action c a w) as [r w']. reflexivity.
+Qed.
+
+Lemma run_hprog_inv : forall c h w log e w' atts,
+  run_hprog c h w log = (e, w', atts) ->
+  exists news, atts = rev log ++ news /\
+    w_out w' = w_out w ++ concat_bytes (map (attempt_bytes c) news) /\
+    (w_left w = None -> w_left w' = None).
+Proof.
+  intros c h. induction h as [err|a k IH]; intros w log e w' atts H.
+  - rewrite run_hprog_ret in H. inversion H; subst.
+    exists []. cbn [map concat_bytes]. rewrite !app_nil_r. auto.
+  - rewrite run_hprog_do in H.
+    destruct (do_action c a w) as [r w1] eqn:Ea. cbn [fst snd] in H.
+    destruct (IH r w1 _ e w' atts H) as (news & Hat & Hout & Hl).
+    exists (mkAtt a r :: news). split; [|split].
+    + rewrite Hat. cbn [rev]. rewrite <- app_assoc. reflexivity.
+    + rewrite Hout, (do_action_out _ _ _ _ _ Ea). cbn [map concat_bytes].
+      rewrite <- app_assoc. reflexivity.
+    + intro Hw. apply Hl. exact (do_action_left_none _ _ _ _ _ Hw Ea).
+Qed.
+
+Lemma skipn_length_app : forall (A : Type) (l1 l2 : list A), skipn (length l1) (l1 ++ l2) = l2.
+Proof. induction l1 as [|x l1 IH]; intro l2; cbn [length skipn app]; auto. Qed.
+
+(* the hypothesis on w_left is not needed: a failed write is a non-ResOk attempt *)
+Theorem run_hprog_output_gen : forall c h w log,
+  let '(e, w', atts) := run_hprog c h w log in
+  w_out w' = w_out w ++ concat_bytes (map (attempt_bytes c) (skipn (length log) atts)).
+Proof.
+  intros c h w log. destruct (run_hprog c h w log) as [[e w'] atts] eqn:E.
+  destruct (run_hprog_inv _ _ _ _ _ _ _ E) as (news & Hat & Hout & _).
+  rewrite Hat, <- rev_length, skipn_length_app. exact Hout.
+Qed.
+Print Assumptions run_hprog_output_gen.
+
+Theorem run_hprog_output : forall c h w log, w_left w = None ->
+  let '(e, w', atts) := run_hprog c h w log in
+  w_out w' = w_out w ++ concat_bytes (map (attempt_bytes c) (skipn (length log) atts)).
+Proof. intros c h w log _. exact (run_hprog_output_gen c h w log). Qed.
+Print Assumptions run_hprog_output.
+
+Corollary run_hprog_output_nil : forall c h w e w' atts,
+  run_hprog c h w [] = (e, w', atts) ->
+  w_out w' = w_out w ++ concat_bytes (map (attempt_bytes c) atts).
+Proof.
+  intros c h w e w' atts H. pose proof (run_hprog_output_gen c h w []) as G.
+  rewrite H in G. exact G.
+Qed.
+
+Lemma run_hprog_left_none : forall c h w log e w' atts,
+  w_left w = None -> run_hprog c h w log = (e, w', atts) -> w_left w' = None.
+Proof.
+  intros c h w log e w' atts Hl H.
+  destruct (run_hprog_inv _ _ _ _ _ _ _ H) as (_ & _ & _ & G). exact (G Hl).
+Qed.
+
+(* ---------- handle_call ---------- *)
+
+Definition prog_of (reg : registry) (hs : handlers) (c : call) : disp * hprog :=
+  match route reg (c_method c) with
+  | RInvalidMethod => (DInvalidMethod, builtin_prog (BStd EInvalidParameter s_method))
+  | RBuiltin m => (DBuiltin m, builtin_prog (builtin reg c m))
+  | RNoInterface i => (DNoInterface i, builtin_prog (BStd EInterfaceNotFound i))
+  | RDispatch i m => (DHandler i m, hs i m c)
+  end.
+
+Lemma handle_call_eq : forall reg hs c w,
+  handle_call reg hs c w =
+  (let '(e, w', atts) := run_hprog c (snd (prog_of reg hs c)) w [] in
+   (e, w', mkEntry c (fst (prog_of reg hs c)) atts e)).
+Proof.
+  intros reg hs c w. unfold handle_call, prog_of.
+  destruct (route reg (c_method c)); reflexivity.
+Qed.
+
+Lemma handle_call_inv : forall reg hs c w e w' en,
+  handle_call reg hs c w = (e, w', en) ->
+  e_call en = c /\ e_err en = e /\ e_disp en = fst (prog_of reg hs c) /\
+  run_hprog c (snd (prog_of reg hs c)) w [] = (e, w', e_attempts en).
+Proof.
+  intros reg hs c w e w' en H. rewrite handle_call_eq in H.
+  destruct (run_hprog c (snd (prog_of reg hs c)) w []) as [[e0 w0] atts] eqn:E.
+  inversion H; subst. cbn. auto.
+Qed.
+
+Lemma oneway_attempt_bytes : forall c atts, c_oneway c = true ->
+  concat_bytes (map (attempt_bytes c) atts) = [].
+Proof.
+  intros c atts H. induction atts as [|a atts IH]; cbn [map concat_bytes]; [reflexivity|].
+  rewrite IH. unfold attempt_bytes. rewrite H. reflexivity.
+Qed.
+
+Theorem oneway_silent : forall reg hs c w, c_oneway c = true ->
+  let '(e, w', en) := handle_call reg hs c w in w_out w' = w_out w.
+Proof.
+  intros reg hs c w Ho. destruct (handle_call reg hs c w) as [[e w'] en] eqn:E.
+  destruct (handle_call_inv _ _ _ _ _ _ _ E) as (_ & _ & _ & Hr).
+  rewrite (run_hprog_output_nil _ _ _ _ _ _ Hr), (oneway_attempt_bytes _ _ Ho).
+  apply app_nil_r.
+Qed.
+Print Assumptions oneway_silent.
